@@ -173,9 +173,11 @@ void Rpc::onRecvRespond(int id, int errcode, const Json &js_result)
     RECORD_SCOPE();
     auto iter = request_callback_.find(id);
     if (iter != request_callback_.end()) {
-        if (iter->second)
-            iter->second(errcode, js_result);
+        //! 先移除再回调：回调里可能再次 request()（容器变动）或者又收到同一个回复（不能再调一次）
+        auto cb = std::move(iter->second);
         request_callback_.erase(iter);
+        if (cb)
+            cb(errcode, js_result);
     }
 }
 
@@ -183,9 +185,10 @@ void Rpc::onRequestTimeout(int id)
 {
     auto iter = request_callback_.find(id);
     if (iter != request_callback_.end()) {
-        if (iter->second)
-            iter->second(ErrorCode::kRequestTimeout, Json());
+        auto cb = std::move(iter->second);
         request_callback_.erase(iter);
+        if (cb)
+            cb(ErrorCode::kRequestTimeout, Json());
     }
 }
 
